@@ -175,6 +175,13 @@ def run_shard(ctx):
         record(ctx, src, kw, ml, None, 'definition-shape', verdict(src, kw, ml, None))
         if ctx.too_many():
             return
+    for i in range(ctx.n(20000, 600000)):
+        src = soup.wrapped_shape(rnd, targets)
+        kw = dict(lang=rnd.choice(['en', 'de']), pack='*,cleveref')
+        ml = rnd.random() < 0.2
+        record(ctx, src, kw, ml, None, 'construct-in-macro-body', verdict(src, kw, ml, None))
+        if ctx.too_many():
+            return
     ctx.stats.extra['shape_enumeration_complete_up_to_slots'] = full_slots
     ctx.stats.extra['shape_targets'] = len(targets)
 
